@@ -27,6 +27,9 @@ def entries(t):
     E.append(('header', 'Header::parse_header', 'string', None, L, b'', b''))
     E.append(('content-disposition', 'ContentDisposition::parse', 'string', None, L, b'', b''))
     E.append(('content-disposition-form', 'ContentDisposition::parse', 'string', None, L, b'form-data; ', b''))
+    E.append(('content-disposition-name', 'ContentDisposition::parse', 'string', None, (0, 1, 2), b'form-data; name=', b''))
+    E.append(('content-disposition-filename', 'ContentDisposition::parse', 'string', None, (0, 1, 2), b'attachment; filename=', b''))
+    E.append(('content-disposition-both', 'ContentDisposition::parse', 'string', None, (0, 1, 2), b'form-data; name="a"; filename=', b''))
     E.append(('content-range-value', 'Range::_parse_raw_content_range_header_value', 'string', None, L, b'', b''))
     E.append(('content-range-value-bytes', 'Range::_parse_raw_content_range_header_value', 'string', [ord(c) for c in '0123456789-/ *b'], L, b'bytes ', b''))
     E.append(('url-path-pattern', 'UrlPath::extract_parts_from_pattern', 'string', [ord(c) for c in '/[]ab '], Lj, b'', b''))
